@@ -80,14 +80,13 @@ def handle (op : String) (args : List String) : Option String :=
       | k :: rest' =>
         match k.toNat?.bind (fun k => parseObjects k rest') with
         | some (os, []) =>
-          match getToc (4 * os.length + 64) tr os with
+          match getToc tr os with
           | .ok toc ne =>
             "ok " ++ toString toc.length ++ String.join (toc.map fun e =>
               " | " ++ toString e.level ++ " " ++ toString e.page ++ " " ++ showCps e.title) ++
               " errs=" ++ toString ne
           | .err => "err"
           | .panic => "panic"
-          | .fuel => "fuel"
           | .unsupported => "unsupported"
         | _ => "bad-op"
       | [] => "bad-op"
